@@ -678,6 +678,14 @@ def gen_c13(tier, seed):
         calls.append(call('make', gen.digits(r, n)))
         calls.append(call('make', gen.latin1(r, n), micro=False))
     calls.append(call('make', ['12', 'AB', 'cd']))
+    # the middle of every range: random version, level, mode and length (thorough: many)
+    for _ in range(60 if tier == 'quick' else 1500):
+        v = r.choice(ALLV)
+        e = r.choice(T.levels_of(v))
+        mode = r.choice(modes_of(v))
+        nmax = T.max_chars(v, e, mode)
+        if nmax >= 1:
+            calls.append(content_call(r, v, e, mode, r.randint(1, nmax)))
     # the version search near the character-count-indicator range boundaries: one and two characters more than (v, e) holds - the stream
     # must still end with a terminator / padding in a larger symbol (never be cut at the capacity)
     for v in ((9, 10, 26, 27, 28, 39) if tier == 'quick' else range(1, 40)):
